@@ -13,7 +13,7 @@ from . import common
 
 ORDINARY = ["a", "b", "c", "tag1", "Sheep"]
 LOCAL_RESERVED = ["add_tag", "itemize", "get_tag_name", "_tag_names", "_tag_counter", "__class__", "__dict__", "__len__",
-                  "__init__", "__doc__", "__module__"]
+                  "__init__", "__doc__", "__module__", "__weakref__", "__eq__", "__repr__", "__hash__", "__str__", "__getattribute__"]
 GLOBAL_RESERVED = ["TagLibrary", "DuplicateTagError", "TagNotFoundError", "_module_library", "__name__", "__getattr__"]
 ARBITRARY = ["", "x y", "1abc", "a.b", "NONE ", "none", "_beta", "__delta__", "_x", "__slots__", "\uff21", "A", "x\u00b2", "\u2126",
              "%s", "50%", "{0}", "%(x)s", "{tag_id}", "a\nb", "\\",
